@@ -195,19 +195,21 @@ public:
               this->deallocate();
               exchange_memory(*this, img);
           } else {
-              // cannot propagate the allocator and cannot adopt the memory
+              // cannot propagate the allocator and cannot adopt the memory:
+              // release our storage, copy the pixels with our allocator, release the source
+              destruct_pixels(this->_view);
+              this->deallocate();
+              this->_memory = nullptr;
+              this->_allocated_bytes = 0;
+              this->_view = view_t{};
               if (img._memory)
               {
                   allocate_and_copy(img.dimensions(), img._view);
                   destruct_pixels(img._view);
                   img.deallocate();
+                  img._memory = nullptr;
+                  img._allocated_bytes = 0;
                   img._view = image::view_t{};
-              }
-              else
-              {
-                  destruct_pixels(this->_view);
-                  this->deallocate();
-                  this->_view = view_t{};
               }
           }
       }
